@@ -176,6 +176,8 @@ def _run_vc(args):
                         # the instances did not suffice: one attempt with the quantified hypotheses, short budget (an obligation
                         # that needs them and is not decided quickly is reported undecided, never a violation without a model)
                         r = solve.check_unsat(list(fmls) + [z3.Not(goal)], timeout_ms=min(to, 10000), cvc5_fallback=False, crosscheck=crosscheck)
+            if r is None and kind == "lemma-raw":  # a lemma about the solver front end itself: no product abstraction
+                r = solve._check_unsat(list(fmls) + [z3.Not(goal)], timeout_ms=to, crosscheck=crosscheck)
             if r is None:
                 r = solve.check_unsat(list(fmls) + [z3.Not(goal)], timeout_ms=to, crosscheck=crosscheck)
             rec = {"name": name, "status": r.status, "backend": r.backend, "ms": round(r.ms, 1), "kind": kind, "note": r.note}
@@ -231,8 +233,9 @@ def _run_vc(args):
                 decide("%s/%s#path%d" % (vc.name, pname, pi), hyps + list(p.pc), g_, insts=p.insts or None)
             if n_emitted == 0:
                 decide("%s/%s" % (vc.name, pname), hyps, z3.BoolVal(bool(real_paths)))
-        for lname, lh, lg in vc.lemmas:
-            decide("%s/lemma:%s" % (vc.name, lname), list(lh), lg, kind="lemma")
+        for lem in vc.lemmas:
+            lname, lh, lg = lem[:3]
+            decide("%s/lemma:%s" % (vc.name, lname), list(lh), lg, kind="lemma-raw" if len(lem) > 3 and lem[3] == "raw" else "lemma")
         out["obligations"] = _discharge(tasks, solve_task, nchild)
         # vacuity guard 2: must-fail twins
         for tname, fn in vc.twins:
